@@ -683,6 +683,116 @@ func retryAfterAcrossSuccess() {
 	}
 }
 
+// terminationAfterFailures: "every client operation terminates" also after a history of operations that
+// failed in ways that abandon a request half way. Through one client with the default of three concurrent
+// requests per host: five pushes from a stream that cannot be replayed, each hit by one transient 500 on its
+// upload request (they fail, legitimately), mixed with downloads abandoned mid-body and requests cancelled
+// while the server stalls; then a plain manifest HEAD. It must return (and succeed) while its context is live.
+func terminationAfterFailures() {
+	for rep := 0; rep < ev.Scale(3, 12); rep++ {
+		rng := ev.Rand(fmt.Sprintf("c12/term/%d", rep))
+		e := newEnv(1, 0, true)
+		layer := firstLayer(e)
+		img := someImage(e)
+		var mu sync.Mutex
+		mode := ""
+		putSeen := map[string]bool{}
+		e.up.Intercept = func(evn *modelreg.Event, w http.ResponseWriter, r *http.Request) bool {
+			mu.Lock()
+			m := mode
+			first := false
+			if m == "500-on-first-put" && evn.Kind == "upload-put" && !putSeen[evn.Path] {
+				putSeen[evn.Path] = true
+				first = true
+			}
+			mu.Unlock()
+			switch {
+			case first:
+				w.WriteHeader(500)
+				return true
+			case m == "stall" && evn.Kind == "blob":
+				<-r.Context().Done()
+				modelreg.DropConn(w)
+				return true
+			}
+			return false
+		}
+		rc := rcx.New([]*modelreg.Host{e.up}, rcx.Opts{RetryLimit: 3, Mutate: func(name string, c *config.Host) { c.ReqConcurrent = 3 }})
+		set := func(m string) { mu.Lock(); mode = m; mu.Unlock() }
+		var hist []string
+		for k := 0; k < 5+rng.Intn(4); k++ {
+			ctx, cancel := context.WithTimeout(context.Background(), 20*time.Second)
+			var err error
+			op := []string{"push-unreplayable", "push-unreplayable", "blob-abandoned", "blob-cancelled"}[rng.Intn(4)]
+			switch op {
+			case "push-unreplayable":
+				set("500-on-first-put")
+				body := make([]byte, 300+rng.Intn(500))
+				rng.Read(body)
+				d := descriptor.Descriptor{Digest: digest.FromBytes(body), Size: int64(len(body))}
+				_, err = rc.BlobPut(ctx, rcx.Ref(e.up, e.repo, ""), d, io.MultiReader(bytes.NewReader(body)))
+			case "blob-abandoned":
+				set("")
+				var rd io.ReadCloser
+				rd, err = rc.BlobGet(ctx, rcx.Ref(e.up, e.repo, ""), descriptor.Descriptor{Digest: digest.Digest(layer.Digest)})
+				if err == nil {
+					_, _ = rd.Read(make([]byte, 8))
+					err = rd.Close()
+				}
+			case "blob-cancelled":
+				set("stall")
+				c2, cancel2 := context.WithTimeout(ctx, 150*time.Millisecond)
+				_, err = rc.BlobGet(c2, rcx.Ref(e.up, e.repo, ""), descriptor.Descriptor{Digest: digest.Digest(layer.Digest)})
+				cancel2()
+			}
+			cancel()
+			hist = append(hist, fmt.Sprintf("%s -> %v", op, err != nil))
+			// successes in between, so that the host is not simply written off as failing (which would keep
+			// later operations from being attempted at all and so hide what the failed ones left behind)
+			set("")
+			for j := 0; j < 8; j++ {
+				c3, cancel3 := context.WithTimeout(context.Background(), 15*time.Second)
+				before := e.w.Requests()
+				_, herr := rc.ManifestHead(c3, rcx.Ref(e.up, e.repo, img.Digest))
+				expired := c3.Err() != nil
+				cancel3()
+				if herr != nil && expired && e.w.Requests() == before {
+					e.w.WaitIdle()
+					run.Eval(1)
+					run.Count("termination_histories", 1)
+					run.Violation("operation-never-sent-after-failed-operations", "after a history of failed / abandoned operations a plain manifest HEAD never reached the registry and only returned when its 15 s context expired: earlier operations kept the host's request slots", map[string]any{"history": hist, "err": fmt.Sprint(herr)})
+					e.w.Close()
+					return
+				}
+			}
+		}
+		set("")
+		ctx, cancel := context.WithTimeout(context.Background(), 15*time.Second)
+		before := e.w.Requests()
+		_, err := rc.ManifestHead(ctx, rcx.Ref(e.up, e.repo, img.Digest))
+		expired := ctx.Err() != nil
+		cancel()
+		e.w.WaitIdle()
+		run.Eval(1)
+		run.Count("termination_histories", 1)
+		if rep == 0 {
+			run.Sample(map[string]any{"termination_history": hist, "final_head_err": fmt.Sprint(err), "requests": reqList(e.w)})
+		}
+		switch {
+		case err != nil && expired && e.w.Requests() == before:
+			run.Violation("operation-never-sent-after-failed-operations", "after a history of failed / abandoned operations a plain manifest HEAD never reached the registry and only returned when its 15 s context expired: earlier operations kept the host's request slots", map[string]any{"history": hist, "err": fmt.Sprint(err)})
+		case err != nil && !expired:
+			// the host may be backing off after the failures: failing fast is the documented behaviour
+			run.Count("termination_head_failed_fast", 1)
+		case err == nil:
+			run.Count("termination_head_ok", 1)
+		default:
+			run.Inconclusive("termination scenario: HEAD reached the server but did not finish within 15 s")
+		}
+		e.w.Close()
+	}
+}
+
 // notifyHandler is a slog handler that signals when a record with the given message is logged.
 type notifyHandler struct {
 	match string
@@ -1004,6 +1114,7 @@ func main() {
 		"bounded progress: an operation exceeding 300 requests against a server that never makes progress is a violation; the 4 s context is only a safety net")
 	attemptsAndBackoff()
 	retryAfterAcrossSuccess()
+	terminationAfterFailures()
 	absorb()
 	mirrors()
 	hostile()
